@@ -69,6 +69,14 @@ CHECKS = {
          "Exploration: eight scenarios (flow global/private window, throttling, warm-up, hotspot QPS reject/throttling/concurrency, circuit breaker) x reload position x reload API x treatment of unrelated resources x id refresh/reordering; the observation sequence (admission, block type, time slept, breaker states) must equal the reload-free run, enforcing objects must be the same Arc, and a changed threshold must act on the very next entry.",
          "Trusted: virtual clock; both runs start at the same bucket phase; a second rule only where evaluation order of a resource's rules cannot matter.",
          "5/C11"),
+ "C17": ("exhaustive enumeration of the 1715-point configuration grid + proptest (entity / YAML, bucket phase); acceptance predicates; window behaviour probed on the initialising thread and on a second thread under the virtual clock",
+         "Exploration with an exhaustive sub-domain: every grid point is initialised as ConfigEntity (all 1715) and generated points also through a YAML file; acceptance must agree with check() and with the statement's must-refuse / must-accept predicates; an accepted configuration must yield working entries and the configured window geometry (getters, accessor, and visibility of a recorded pass until its bucket leaves interval_ms / interval_ms_total) on the initialising thread and on another thread.",
+         "Trusted: several configurations initialised one after another in one process on fresh resources; virtual clock; geometry accessor hook as cross-check.",
+         "5/C17"),
+ "C19": ("proptest write histories; queries enumerated exhaustively per history; crash-point (fault) enumeration over the journalled byte stream of the writer; journal-based placement oracle",
+         "Fault enumeration: for every generated write history (size roll-overs, date roll-over, retention, gaps) every (begin, end, resource) and (begin, max_lines) query is checked against the surviving items; then every operation boundary, every interior byte of every index entry and sampled/all interior line bytes of the writer's journalled output are materialised as crash prefixes and searched: every item whose line and index entry are complete must be returned in order, at most one bogus (torn) item, never a panic.",
+         "Trusted: the writer journal hook is the ground truth for the order of file operations; crash states are prefixes of that stream; one write() per second after the creation second.",
+         "5/C19"),
 }
 ALL = ["C%02d" % i for i in range(1, 21)]
 NOT_YET = "check not built yet in this round (planned, see DESIGN.md section 5)"
@@ -85,7 +93,7 @@ for pid in ALL:
         "evidence_file": f"/verif/evidence/{pid}.json",
         "replay_cmd_template": "/verif/target/seq/release/svcheck replay {path}",
         "engine": "svcheck",
-        "level_claimed": {"category": "exploration", "text": text, "design_ref": "DESIGN.md " + ref},
+        "level_claimed": {"category": ("fault_enumeration" if pid == "C19" else "exploration"), "text": text, "design_ref": "DESIGN.md " + ref},
         "level_note": note,
         "technique": tech,
     })
